@@ -115,6 +115,8 @@ fn chain_check(v: &ChainCase, rep: &mut Rep) -> Result<(), String> {
                 let _ = match *s % 3 {
                     0 => chain.seek(SeekFrom::Start((n + beyond) as u64)),
                     1 => chain.seek(SeekFrom::End(beyond)),
+                    _ if *s % 7 == 0 => chain.seek(SeekFrom::Current(i64::MAX)),
+                    _ if *s % 7 == 1 => chain.seek(SeekFrom::Start(u64::MAX)),
                     _ => chain.seek(SeekFrom::Current(n - pos + beyond)),
                 };
                 // a read with an empty buffer returns 0 wherever the position is
@@ -123,7 +125,11 @@ fn chain_check(v: &ChainCase, rep: &mut Rep) -> Result<(), String> {
                 ensure_eq!(a, pos as u64, "op {}: in-range seek after a seek beyond the end", oi);
             }
             COp::Negative(s) => {
-                let _ = chain.seek(SeekFrom::Current(-(pos + 1 + *s as i64)));
+                let _ = match *s % 4 {
+                    0 => chain.seek(SeekFrom::Current(i64::MIN)),
+                    1 => chain.seek(SeekFrom::End(i64::MIN)),
+                    _ => chain.seek(SeekFrom::Current(-(pos + 1 + *s as i64))),
+                };
                 let a = chain.seek(SeekFrom::Start(pos as u64)).map_err(|e| format!("op {}: seek error {}", oi, e))?;
                 ensure_eq!(a, pos as u64, "op {}: in-range seek after a seek before the start", oi);
             }
@@ -159,7 +165,11 @@ pub struct ZipCase {
 
 fn member_name(m: &Member, sandbox_victim: &str, pid_tag: &str) -> String {
     let n = m.n % 4;
-    let base = match m.name_kind % 14 {
+    let base = match m.name_kind % 18 {
+        14 => format!("{}{}.dlt", "l".repeat(300), n), // longer than a file name may be
+        15 => String::new(),
+        16 => "cf".to_string(),            // a file ...
+        17 => format!("cf/x{}.dlt", n),    // ... and a member below a directory of the same name
         0 => format!("a{}.dlt", n),
         1 => format!("d1/d2/b{}.dlt", n),
         2 => format!("./c{}.dlt", n),
@@ -270,6 +280,11 @@ fn leads_outside(name: &str) -> bool {
         }
     }
     false
+}
+/// members that the file system may refuse (name too long, empty name, file and directory of the same name): they may be
+/// missing from the result - but they must not keep the other members from being extracted
+fn may_be_refused(name: &str) -> bool {
+    name.is_empty() || name == "cf" || name.starts_with("cf/") || name.split('/').any(|c| c.len() > 255)
 }
 fn norm(p: &Path) -> String {
     let mut parts: Vec<String> = vec![];
@@ -413,10 +428,29 @@ fn zip_check_in(c: &ZipCase, rep: &mut Rep, root: &Path, nr: usize) -> Result<()
         _ => {
             rep.label("extract_archives");
             let mut temp_dirs = vec![];
+            // the archive named by its bare file name, from within its directory (as on a command line)
+            let bare = c.volumes.len() % 2 == 1 || (!multi && c.members.len() % 4 == 0);
+            let prev_cwd = std::env::current_dir().ok();
+            let first_arg: String = if bare {
+                std::env::set_current_dir(&arch_dir).map_err(|e| e.to_string())?;
+                rep.label("bare_relative_archive_name");
+                first.file_name().unwrap().to_string_lossy().into_owned()
+            } else {
+                first.display().to_string()
+            };
+            struct Restore(Option<PathBuf>);
+            impl Drop for Restore {
+                fn drop(&mut self) {
+                    if let Some(p) = &self.0 {
+                        let _ = std::env::set_current_dir(p);
+                    }
+                }
+            }
+            let _restore = Restore(if bare { prev_cwd } else { None });
             let arg = match form {
-                1 => format!("{}!/{}", first.display(), pat),
-                2 => first.display().to_string(),
-                _ => format!("{}/{}", first.display(), pat),
+                1 => format!("{}!/{}", first_arg, pat),
+                2 => first_arg.clone(),
+                _ => format!("{}/{}", first_arg, pat),
             };
             rep.label(["archive_slash_pattern", "archive_bang_pattern", "archive_alone"][form]);
             let log = slog::Logger::root(slog::Discard, slog::o!());
@@ -437,7 +471,7 @@ fn zip_check_in(c: &ZipCase, rep: &mut Rep, root: &Path, nr: usize) -> Result<()
                     let pat2 = GLOBS[(c.glob as usize + 1 + c.call as usize) % GLOBS.len()];
                     let gp2 = glob::Pattern::new(pat2).unwrap();
                     let exp2: Vec<String> = unique_names.iter().filter(|n| (*n == pat2 || gp2.matches(n)) && !n.ends_with('/') && !leads_outside(n)).cloned().collect();
-                    let arg2 = format!("{}/{}", first.display(), pat2);
+                    let arg2 = format!("{}/{}", first_arg, pat2);
                     let r2 = extract_archives(arg2.clone(), &mut temp_dirs, &cancel, &log);
                     if exp2.is_empty() {
                         if !(r2.is_empty() || r2 == vec![arg2.clone()]) {
@@ -455,6 +489,9 @@ fn zip_check_in(c: &ZipCase, rep: &mut Rep, root: &Path, nr: usize) -> Result<()
                         let mut want: Vec<String> = expected.iter().chain(exp2.iter()).map(|n| norm(Path::new(n))).collect();
                         want.sort();
                         want.dedup();
+                        let opt: Vec<String> = unique_names.iter().filter(|n| may_be_refused(n)).map(|n| norm(Path::new(n))).collect();
+                        have.retain(|x| !opt.contains(x));
+                        want.retain(|x| !opt.contains(x));
                         if have != want {
                             res = Err(format!("after two requests ({:?}, {:?}) the temp dir holds {:?}, expected {:?}", pat, pat2, have, want));
                         }
@@ -476,6 +513,9 @@ fn zip_check_in(c: &ZipCase, rep: &mut Rep, root: &Path, nr: usize) -> Result<()
         let mut want: Vec<String> = expected.iter().map(|n| norm(Path::new(n))).collect();
         want.sort();
         want.dedup();
+        let opt: Vec<String> = unique_names.iter().filter(|n| may_be_refused(n)).map(|n| norm(Path::new(n))).collect();
+        have.retain(|x| !opt.contains(x));
+        want.retain(|x| !opt.contains(x));
         ensure_eq!(have, want, "files in the target directory vs members to extract");
     }
     // nothing created or changed outside of the target directory
@@ -510,7 +550,10 @@ fn verify(target: &Path, reported: &[PathBuf], expected: &[String], by_name: &Ha
     got.dedup();
     let mut want: Vec<String> = exp_norm.iter().map(|x| x.0.clone()).collect();
     want.dedup();
-    ensure_eq!(got, want, "extracted/reported members vs members matching the pattern with names inside the directory");
+    let optional: Vec<String> = expected.iter().filter(|n| may_be_refused(n)).map(|n| norm(Path::new(n))).collect();
+    let got_req: Vec<String> = got.iter().filter(|g| !optional.contains(g)).cloned().collect();
+    let want_req: Vec<String> = want.iter().filter(|g| !optional.contains(g)).cloned().collect();
+    ensure_eq!(got_req, want_req, "extracted/reported members vs members matching the pattern with names inside the directory (members the file system may refuse left aside: {:?})", optional);
     for (nname, path) in &rep_names {
         let data = std::fs::read(path).map_err(|e| format!("extracted file unreadable {}: {}", path.display(), e))?;
         // any member whose normalised name is this one (duplicates / aliases): content must equal one of them
@@ -531,7 +574,7 @@ pub fn def(tier: Tier) -> PropertyDef {
         1 => (0u16..100).prop_map(COp::Negative),
     ];
     let chain = (prop_oneof![3 => 0u16..40, 2 => 0u16..200], prop::collection::vec(any::<u16>(), 0..6), prop::collection::vec(cop, 0..40));
-    let member = (0u8..14, 0u8..4, (prop::collection::vec(any::<u8>(), 1..16), prop_oneof![4 => Just(0usize), 20 => 1usize..200, 4 => 1usize..20000, 1 => 70_000usize..200_000]), prop::bool::weighted(0.08)).prop_map(|(name_kind, n, (chunk, len), is_dir)| Member { name_kind, n, content: Fill { len, chunk }, is_dir });
+    let member = (prop_oneof![14 => 0u8..14, 2 => 14u8..18], 0u8..4, (prop::collection::vec(any::<u8>(), 1..16), prop_oneof![4 => Just(0usize), 20 => 1usize..200, 4 => 1usize..20000, 1 => 70_000usize..200_000]), prop::bool::weighted(0.08)).prop_map(|(name_kind, n, (chunk, len), is_dir)| Member { name_kind, n, content: Fill { len, chunk }, is_dir });
     let zipc = (prop::collection::vec(member, 1..9), any::<bool>(), prop_oneof![2 => Just(vec![]), 2 => prop::collection::vec(any::<u16>(), 1..4)], 0u8..10, 0u8..3).prop_map(|(members, deflate, volumes, glob, call)| ZipCase { members, deflate, volumes, glob, call });
     PropertyDef {
         id: "C20",
